@@ -64,8 +64,9 @@ def judge_c05(ctx, ex):
         if problem:
             yield (problem, True, None)
             continue
+        clash = "label-clash" in ctx["structure"]["tags"]
         for p in shexc.check_closed(schema):
-            yield (p, True, None)
+            yield (p, True, "STAGE-same-local-name-same-label" if clash and p.startswith("shape label") else None)
         if r.get("shacl") is not None:
             for p in shacl_problems(r["shacl"]):
                 yield (p, True, None)
@@ -988,12 +989,32 @@ def _evidence(schema):
     return out
 
 
+def _unique_labels(schema):
+    """Shapes that share a label (classes with the same local name - recorded finding of C05) are told apart by the class value of their typing constraint,
+    so that a judge keyed by label compares like with like."""
+    labels = [sh.label for sh in schema.shapes]
+    if len(set(labels)) == len(labels):
+        return schema
+    import copy
+    out = copy.copy(schema)
+    out.shapes = []
+    for sh in schema.shapes:
+        sh2 = copy.copy(sh)
+        if labels.count(sh.label) > 1:
+            vals = sorted(v for stm in sh.statements if stm.pred == RDF_TYPE and not stm.inverse for k, v in stm.targets if k == "value")
+            sh2.label = sh.label + "|" + (vals[0] if vals else "?")
+        out.shapes.append(sh2)
+    return out
+
+
 def judge_c09(ctx, ex):
     a, b = ctx["runs"]
     for r in ctx["runs"]:
         if r["schema"] is None:
             yield (r["parse_problem"], True, None)
             return
+    if "label-clash" in ctx["structure"]["tags"]:
+        a, b = dict(a, schema=_unique_labels(a["schema"])), dict(b, schema=_unique_labels(b["schema"]))
     la, lb = {sh.label: sh for sh in a["schema"].shapes}, {sh.label: sh for sh in b["schema"].shapes}
     if set(la) != set(lb):
         yield ("statement order changes the set of shapes: %r vs %r" % (sorted(la), sorted(lb)), True, None)
@@ -1293,7 +1314,8 @@ CONCRETE = {
                                   (["known-ref-removed"] if "STAGE-ref-to-removed-shape-drops-constraint" in c["active"] else []),
                                   c["reals"][0]["run"]["flags"]["remove_empty_shapes"]),
     "C04": lambda c: [],
-    "C05": lambda c: [p for x, sch in zip(c["reals"], c["schemas"]) for p in shexc.check_closed(sch) + (shacl_problems(x["shacl"]) if x["shacl"] is not None else [])],
+    "C05": lambda c: [p for x, sch in zip(c["reals"], c["schemas"]) for p in shexc.check_closed(sch) + (shacl_problems(x["shacl"]) if x["shacl"] is not None else [])
+                      if not (p.startswith("shape label") and "label-clash" in c["tags"] and "STAGE-same-local-name-same-label" in c["active"])],
     "C12": lambda c: _run_symbolic_judge_concretely(judge_c12, c),
     "C12z": lambda c: _run_symbolic_judge_concretely(judge_c12_zero, c),
     "C12o": lambda c: _run_symbolic_judge_concretely(judge_c12_one, c),
